@@ -32,6 +32,7 @@ func main() {
 		}
 		cov := schedx.Coverage(r, scenarios, map[string]any{
 			"fidelity_evaluations": r.P.Counters["fid_evaluations"], "fidelity_nontrivial": r.P.Counters["fid_nontrivial"],
+			"config_sequence_evaluations": r.P.Counters["cfgseq_evaluations"], "config_sequence_multi_call": r.P.Counters["cfgseq_multi_call"],
 			"jar_depth": jarDepth, "jar_alphabet": fmt.Sprint(jarAlpha), "jar_histories": r.P.Counters["jar_histories"], "jar_unreproduced": r.P.Counters["jar_unreproduced"],
 			"rule": "Part C: all interleavings (within the stated preemption / select-choice bounds) of caller threads, execFunc's worker goroutine, response arrival, transport failure and context cancellation at the scheduling points done-flag CAS/Swap, pool Get/Put (errChan, Response, Request), channel send/receive/select readiness, client mutex operations, and the round-tripper seam; oracle: every (resp, nil) carries echo(id) of its own request, errors are ErrTimeoutOrCancel only after a cancel and the injected transport error only for the failed request, no blocked goroutine, pooled response clean in the probe phase",
 		})
@@ -40,6 +41,11 @@ func main() {
 	}
 	if r.Worker == 0 {
 		runFidelity(r) // map orders are process-global: part A runs in one worker
+		seqDepth := 3
+		if r.Tier == "thorough" {
+			seqDepth = 4
+		}
+		runCfgSequences(r, seqDepth)
 	}
 	enumerateJar(r, jarDepth, jarAlpha)
 	schedx.RunAll(r, scenarios, 0)
